@@ -32,6 +32,11 @@ class C07(WigBedProp):
                 # manual lists a user may pass: unsorted, duplicates, a zero, more than ten sizes
                 o["zooms"] = r.choice(["40,10", "10,10", "0", "0,8", "20,5,80", "2,3,4,5,6,7,8,9,10,11,12,13", "16,16,64"])
                 tags.add("odd_manual_zoom_list")
+            if k % 40 == 7:
+                # deterministically: a manual list that is not ascending, through the two-pass writer and through the single-pass one
+                o["zooms"] = ["40,10", "20,5,80", "16,16,4"][(k // 40) % 3]
+                o["pass"] = 2 - (k // 120) % 2
+                tags.add("odd_manual_zoom_list")
             names = bbgen.free_chrom_order(r, names, o, tags, 1, 6)
             if self.bed:
                 lines = [bbgen.opt_line(o)] + bbgen.bed_lines(names, sizes, data)
@@ -59,6 +64,22 @@ class C07(WigBedProp):
             out.append(CaseT(f"z{k}", "bed" if self.bed else "wig", [], lines, self.common_tags(o, names, data, tags)))
         for k in range(8 if tier == "thorough" else 2):
             out.append(bbgen.short_dest_case(rng.fork(f"shortdest{k}"), f"shortdest{k}", self.bed, zoom_queries=True))
+        # clusters of one-base items spaced 100,000 bases apart: the number of zoom records (and of zoom blocks) stays the same from the
+        # finest automatic level up to the first resolution wider than the spacing — levels are pruned in the MIDDLE of the pyramid
+        for g in range(2 if tier == "thorough" else 1):
+            r = rng.fork(f"clusters{g}")
+            ncl = r.range(2200, 2600)
+            names, sizes = ["chr1", "chr2"], {"chr1": 300000000, "chr2": 1000}
+            if self.bed:
+                data = {"chr1": [(c_ * 100000 + 2 * j, c_ * 100000 + 2 * j + 1, "") for c_ in range(ncl) for j in range(10)], "chr2": [(5, 50, "")]}
+            else:
+                data = {"chr1": [(c_ * 100000 + 2 * j, c_ * 100000 + 2 * j + 1, bbgen.f32bits(float(1 + (c_ + j) % 5))) for c_ in range(ncl) for j in range(10)],
+                        "chr2": [(5, 50, bbgen.f32bits(2.0))]}
+            o = {"compress": r.choice([0, 1]), "ips": 1024, "bs": 256, "zooms": "auto", "izs": 160, "nzooms": 10, "pass": 1 + g, "inmem": g, "rt": "mt", "threads": 2,
+                 "chan": 100, "src": "iter", "sort": "all"}
+            lines = [bbgen.opt_line(o)] + (bbgen.bed_lines(names, sizes, data) if self.bed else bbgen.wig_lines(names, sizes, data))
+            lines += [f"Q zoom chr1 0 {sizes['chr1']} #{lv}" for lv in range(6)] + [f"Q zoom chr1 150000000 150400000 #{lv}" for lv in range(6)]
+            out.append(CaseT(f"clusters{g}", "bed" if self.bed else "wig", [], lines, {"bed" if self.bed else "wig", "levels_pruned_mid_pyramid", "multi_chrom", "nt", "zooms_auto"}))
         if self.bed:
             # a deep pile-up: more than 4096 entries over the same bases — the first depth whose square is not a single-precision number
             for g in range(3 if tier == "thorough" else 1):
